@@ -128,11 +128,12 @@ def one_function(ctx, spec):
     rc = {None: "no_return", "": "bare_return", "''": "str_empty", "'text'": "str_literal", "0": "falsy_number", "0.0": "falsy_number",
           "False": "falsy_bool", "None": "none", "5": "int", "-1": "int_neg", "zq_result": "name", "(alpha_zq, 2)": "tuple"}.get(spec.ret_expr, "other")
     ctx.feature("return=" + rc)
+    ctx.feature("no_params" if not spec.params else "has_params")
     base = {"op": OP, "kind": "function", "fn_kind": spec.kind, "has_doc": spec.has_doc, "has_return_stmt": spec.ret_expr is not None,
             "return_class": rc,
             "has_ret_doc": spec.has_ret_doc, "ret_ann": spec.ret_ann is not None,
             "has_nested_def": "FunctionDef" in kinds, "has_lambda": "lambda" in spec.src, "has_early_return": "If" in kinds}
-    replay = {"src": spec.src}
+    replay = {"what": "function", "src": spec.src, "spec": dict(spec)}
     ctx.case((kinds, spec.kind, spec.has_doc, spec.ret_expr, len(spec.params)), nontrivial=bool(before),
              sample={"src": spec.src}, sample_key=kinds[:2])
     for k in set(kinds):
@@ -240,7 +241,14 @@ def one_argparse(ctx, ir, i):
     has_ret = isinstance(fd.body[-1], ast.Return)
     fd.body = fd.body[:-1] + extras + fd.body[-1:] if has_ret else fd.body + extras
     src2 = ast.unparse(ast.fix_missing_locations(fd))
-    replay = {"src": src2}
+    argparse_from_src(ctx, src2, base, len(ir["params"]))
+
+
+def argparse_from_src(ctx, src2, base, n_params):
+    from doctrans import emit, parse
+    from doctrans.source_transformer import to_code
+
+    replay = {"what": "argparse", "src": src2, "base": base, "n_params": n_params}
     fd2 = ast.parse(src2).body[0]
     from doctrans.ast_utils import is_argparse_add_argument, is_argparse_description
 
@@ -248,7 +256,7 @@ def one_argparse(ctx, ir, i):
         return [s for s in strip_doc(body) if not is_argparse_add_argument(s) and not is_argparse_description(s)]
 
     before = non_interface(fd2.body)
-    ctx.case(("argparse", stmt_kinds(before), len(ir["params"])), nontrivial=True, sample={"src": src2}, sample_key="argparse")
+    ctx.case(("argparse", stmt_kinds(before), n_params), nontrivial=True, sample={"src": src2}, sample_key="argparse")
     try:
         ir2 = parse.argparse_ast(copy.deepcopy(fd2), function_name="set_cli_args")
         out = emit.argparse_function(ir2, function_name="set_cli_args", function_type="static")
@@ -267,7 +275,7 @@ def run(ctx):
     n = ctx.n(600, 16000)
     g = IRGen(ctx.rng, knobs(argparse_domain=True, p_return=0.5))
     for i in range(n):
-        spec = gen_function(ctx.rng, with_body=True, style="rest")
+        spec = gen_function(ctx.rng, with_body=True, style="rest", p_no_params=0.08)
         one_function(ctx, spec)
         if i % 3 == 0:
             ir, feat = g.ir()
@@ -279,5 +287,9 @@ def replay(payload):
     from ..gen_py import FuncSpec
 
     ctx = Ctx(PROPERTY, "quick", 0)
-    ctx.case(("replay",))
+    rp = payload["replay"]
+    if rp.get("what") == "argparse":
+        argparse_from_src(ctx, rp["src"], rp["base"], rp.get("n_params", 0))
+    else:
+        one_function(ctx, FuncSpec(rp["spec"]))
     return ctx
